@@ -87,7 +87,7 @@ CHECKS = {
                 "result equals max_dist_from_n_points(pts) < tol with ffgeom executed symbolically (sqrt as a fresh root). L2: supersample "
                 "is executed with the predicate replaced by a memoised nondeterministic stub on lists up to the bound, exploring every "
                 "answer sequence: in-order subsequence of the same objects, first/last kept, every deleted run is the interior of a slice "
-                "judged in tolerance, short lists / non-positive tolerances untouched. L1+L2 give the property. An end-to-end case runs supersample with the real predicate on 3 symbolic vertices and proves every deleted vertex within tolerance of the segment between its surviving neighbours, independently of how the function is organised; a further end-to-end case runs it on 4 (thorough 5) symbolic vertices with the predicate replaced by its contract L1 (assume-guarantee) and replays counterexamples with the real predicate.",
+                "judged in tolerance, short lists / non-positive tolerances untouched. L1+L2 give the property. An end-to-end case runs supersample with the real predicate on 3 symbolic vertices and proves every deleted vertex within tolerance of the segment between its surviving neighbours, independently of how the function is organised; a further end-to-end case runs it on 4 (thorough 5) symbolic vertices with the predicate replaced by its contract L1 (assume-guarantee) and replays counterexamples with the real predicate. Windows of 8 and 12 points (thorough 5..16) are covered by a one-free-vertex family: every vertex but one pinned on the chord, the free vertex at each interior index and the tolerance symbolic.",
         "note": "exact-real model of binary64; n <= 4 (quick) / 5 (thorough) points for L1, lists <= 6 / 9 for L2; the composition of L1 and "
                 "L2 is a paper argument (the stub's contract is L1)",
         "technique": "symbolic execution of the Python source on z3 real terms + SMT (QF_NRA) obligations per path; nondeterministic stub for the structural lemma; counterexample replay",
@@ -141,7 +141,7 @@ CHECKS = {
                 "(termination); (B) a query visits exactly the children whose arbitrary symbolic extent overlaps the query and reports "
                 "exactly the overlapping leaf boxes. A+B give trees of any size by induction on the height. A failed lemma is never "
                 "reported as such: its model is lifted (far-away boxes, all list orders, probing queries; then by the solver with the model's boxes concrete and one or two further symbolic boxes) to an end-to-end brute-force "
-                "mismatch on the real code first. End-to-end cases are also run after other indexes were built and queried in the same interpreter.",
+                "mismatch on the real code first. End-to-end cases are also run after other indexes were built and queried in the same interpreter. A deep tree (8 boxes pinned in a geometric row, thorough also 12; n - 1 levels) is queried with a symbolic box end to end.",
         "note": "exact-real model of the mean-centre arithmetic; min/max as If-terms; the induction composing lemmas A and B is a paper "
                 "argument; node fan-in of the step lemmas bounded by 3/4 boxes",
         "technique": "symbolic execution of the Python source on z3 real terms + SMT (QF_LRA) obligations per path; inductive-step lemmas with counterexample lifting and replay",
@@ -161,7 +161,7 @@ CHECKS = {
                 "state is symbolic (RAM = z3 array with arbitrary contents; mode, motor flags, single-motor option arbitrary; nickname "
                 "symbolic string). Replies carry numbers as tokens, so what the library parses back is a term: the int32 round trip, "
                 "big-endian byte layout, untouched other slots, trimmed nickname and the motor-state/mode clauses are proved for all "
-                "values and all prior board states at once (one inductive step per operation). motors_enable is also run after an earlier request on the same object followed by an arbitrary change of the board state (power cycle), and (thorough) after two earlier requests.",
+                "values and all prior board states at once (one inductive step per operation). motors_enable is also run after an earlier request on the same object followed by an arbitrary change of the board state (power cycle), and (thorough) after two earlier requests. The int32 step is also run after two earlier writes (int32 + int32, int32 + single byte) at arbitrary slots on the same object.",
         "note": "the board model (class Board in checks/c16.py, transcribed from the docstrings/EBB reference) is the trusted base; "
                 "int.to_bytes/from_bytes stubbed as div/mod terms and differentially tested against CPython each run; nicknames of <= 4 printable ASCII characters not containing the reserved text 'Err:'",
         "technique": "symbolic execution of the Python source against a symbolic-state device model (z3 arrays, integer terms, token strings) + SMT obligations per path, counterexample replay",
@@ -170,7 +170,7 @@ CHECKS = {
         "text": "max_rate_t3 (with the rate_t3 calls it makes) is executed on symbolic rate/accel/jerk for each T of a list up to 64 (quick) / "
                 "256 (thorough); the vertex time is an exact rational with symbolic denominator, ceil() a fresh integer concretised by "
                 "forking. Every evaluated tick is proved to lie in 1..T (so reported <= true peak), reported >= |R(1)|,|R(T)|, and no tick "
-                "k in 1..T has |R(k)| > reported + |jerk| (quantifier over k unrolled; R = closed form proved in C02). Selected durations are also run after an earlier call with the same rate/accel/jerk and another duration.",
+                "k in 1..T has |R(k)| > reported + |jerk| (quantifier over k unrolled; R = closed form proved in C02). Selected durations are also run after an earlier call with the same rate/accel/jerk and another duration. Thorough tier: T = 1024 and 2048 with the turning point confined to 9 ticks at the start, middle or end of the move.",
         "note": "T enumerated (not symbolic); binary64 operations of rate_t3 exact under |jerk|T^2,|accel|T < 2^40 (proved per operation); "
                 "rounding of t_mid itself is a paper argument",
         "technique": "symbolic execution of the Python source on z3 integer terms (rationals with symbolic denominator) + SMT (linear integer arithmetic after concretising the tick) obligations per path, counterexample replay",
@@ -202,7 +202,7 @@ CHECKS = {
                 "parser); counterexamples outside it are violations. format_hms is executed on a symbolic duration (ms integer / k/1000 s "
                 "/ integer s up to 10^7 s); "
                 "the text decodes to literals and (term, spec) tokens which are proved to encode the duration rounded to the nearest "
-                "second with fields in 00..59 and the form chosen by the rounded value; ms and s inputs give the same text. Milliseconds are also given with two decimals; rendered numbers are compared through a canonical digit-group model, so different format specs that print the same digits are recognised as equal.",
+                "second with fields in 00..59 and the form chosen by the rounded value; ms and s inputs give the same text. Milliseconds are also given with two decimals; rendered numbers are compared through a canonical digit-group model, so different format specs that print the same digits are recognised as equal. Long texts (10 characters, thorough 9..24) are covered by a one-free-character family: every position but one pinned to the five special characters in turn.",
         "note": "string length <= 4 (quick) / 5 (thorough); C-level number rendering "
                 "is a token (term+spec); exact-real model of duration/1000.0; code that hands the symbolic string to a C-level matcher "
                 "the shims do not model is reported INCONCLUSIVE, not decided",
